@@ -330,14 +330,28 @@ fn load_targets(catalogue: &Path, only: &Option<String>, workers: usize) -> Vec<
         .filter(|p| p.extension().map(|x| x == "cairo").unwrap_or(false))
         .collect();
     files.sort();
+    // Corpus: the repository's own example programs (files that do not compile as a single-file
+    // crate are left out).
+    let n_catalogue = files.len();
+    if std::env::var("VERIF_C03_NO_CORPUS").is_err() {
+        let mut extra: Vec<PathBuf> = std::fs::read_dir(simcore::repo_root().join("examples"))
+            .map(|r| r.filter_map(|e| e.ok().map(|e| e.path())).collect())
+            .unwrap_or_default();
+        extra.retain(|p| p.extension().map(|x| x == "cairo").unwrap_or(false) && p.file_name().map(|n| n != "lib.cairo").unwrap_or(false));
+        extra.sort();
+        files.extend(extra);
+    }
     let compiled = par_map(files.len(), workers, 256, |i| {
         std::panic::catch_unwind(std::panic::AssertUnwindSafe(|| compile_file(&files[i])))
             .unwrap_or_else(|_| Err(format!("the compiler panicked on {:?}", files[i])))
     });
     let mut progs: Vec<(String, String, Program)> = vec![];
     let mut errors = vec![];
-    for (f, c) in files.iter().zip(compiled) {
-        let stem = f.file_name().unwrap().to_string_lossy().to_string();
+    for (k, (f, c)) in files.iter().zip(compiled).enumerate() {
+        let stem = if k < n_catalogue { f.file_name().unwrap().to_string_lossy().to_string() } else { f.to_string_lossy().to_string() };
+        if k >= n_catalogue && c.is_err() {
+            continue;
+        }
         match c {
             Ok(v) => {
                 for (name, p) in v {
@@ -371,11 +385,12 @@ fn load_targets(catalogue: &Path, only: &Option<String>, workers: usize) -> Vec<
 
 fn replay_json(t: &Target, catalogue: &Path, s: &Scenario, f: &Finding, seed: u64, tseed: u64) -> Value {
     let src = std::fs::read_to_string(catalogue.join(&t.source_file)).unwrap_or_default();
+    let file_name = Path::new(&t.source_file).file_name().map(|n| n.to_string_lossy().to_string()).unwrap_or_default();
     json!({
         "property": "C03",
         "engine": "simhint",
         "seed": seed,
-        "source_file": t.source_file,
+        "source_file": file_name,
         "source": src,
         "function": t.name,
         "args": s.args.iter().map(|a| a.to_json()).collect::<Vec<_>>(),
